@@ -1,5 +1,5 @@
 (* C05 - each operation completes exactly once, with the acknowledgement addressed to it. *)
-From Poster Require Import Model.Sim Proofs.ClientP Proofs.SimInvP Proofs.OwnP Proofs.ByteRangeP Proofs.TypedP.
+From Poster Require Import Model.Sim Proofs.ClientP Proofs.SimInvP Proofs.OwnP Proofs.ByteRangeP Proofs.TypedP Proofs.OnceP.
 
 (* the key under which an operation waits - (expected acknowledgement type << 24) | (id << 8) -
    identifies type and identifier uniquely *)
@@ -80,3 +80,32 @@ Example C05_nonvacuous :
 Proof.
   cbv zeta. split; [apply wf_runb_ok; vm_compute; reflexivity|vm_compute; auto].
 Qed.
+
+(* ---- exactly once, over every history (Proofs/OnceP.v) -------------------------------------------------------------------
+   dones i l: how many results (ODone i _) of operation label i the observations l contain. all_obs s evs: every
+   observation of running the events evs from s. no_restart i: the event does not start label i anew (and is not a
+   batch event). From ANY state satisfying the reachable-state invariant OI, whatever else the events do - repeated,
+   stray or mistyped acknowledgements, other operations, faults, reconnects, the Context dropped -: the future of
+   operation i reports a result at most once; and never again once it has finished or was dropped (cap = 0). *)
+Theorem C05_exactly_once : forall (evs : list event) (s : sys) (i : N), OI s -> Forall (no_restart i) evs ->
+  (dones i (all_obs s evs) + cap (final_state s evs) i <= cap s i)%nat.
+Proof. exact at_most_once. Qed.
+Print Assumptions C05_exactly_once.
+Theorem C05_exactly_once_reachable : forall (pre evs : list event) (i : N), Forall (no_restart i) evs ->
+  (dones i (all_obs (final_state sys_init pre) evs) <= 1)%nat.
+Proof. exact at_most_once_reachable. Qed.
+Print Assumptions C05_exactly_once_reachable.
+Check (eq_refl : cap = fun s i =>
+  match alookup i (ops s) with Some o => match o_phase o with Finished => 0%nat | _ => 1%nat end | None => 0%nat end).
+Check (eq_refl : dones = fun i l => length (filter (fun o => match o with ODone j _ => j =? i | _ => false end) l)).
+Check (eq_refl : no_restart = fun i e => match e with EStart j _ _ => j <> i | ESpin _ _ _ _ => False | _ => True end).
+
+(* a QoS 1 publish whose PUBACK is delivered three times and which is polled five times: one result *)
+Example C05_once_nonvacuous :
+  let pre := [EConnect (Build_connect_opts [99] 0 None None None None None None None None [] 0 false false
+                          None None None None None None [] None None None None);
+              EDeliver [32; 3; 0; 0; 0]; ERun;
+              EStart 0 0 (OPub (Build_publish_opts 1 false (Some [116]) None None None None None None None []))] in
+  let evs := [EPoll 0; EDeliver [64; 2; 0; 1]; EDeliver [64; 2; 0; 1]; EPoll 0; EPoll 0; EDeliver [64; 2; 0; 1]; EPoll 0; EPoll 0] in
+  Forall (no_restart 0) evs /\ dones 0 (all_obs (final_state sys_init pre) evs) = 1%nat.
+Proof. split; [repeat constructor|vm_compute; reflexivity]. Qed.
